@@ -239,8 +239,30 @@ def rule_link_direction(rep, ds):
             nlink += 1
             # updateRoot(a, arank, b, brank): need (arank, a) < (brank, b) for every ordering reaching the call
             ok = len(names) == 4 and names[0] in pn and names[2] in pn and names[0] != names[2] and \
-                names[1] == rank_of.get(names[0]) and names[3] == rank_of.get(names[2])
-            det = 'updateRoot arguments %s are not (x, rank of x, y, rank of y)' % names
+                names[1] == rank_of.get(names[0]) and names[3] in rank_of.values()
+            det = 'updateRoot arguments %s are not (x, rank of x, y, a rank)' % names
+            if ok:
+                # R6: the order (rank, index) keeps links acyclic only if a rank that is COMPARED is the node's own.  updateRoot stores its 4th
+                # argument as the rank field of the node that stops being a root; unionNodes may later read that field through a stale
+                # index (findNode returned it as a root, another thread linked it since).  So either the child keeps its own rank, or the
+                # ranks that are compared come from blocks that are checked to be roots (b2p(block) == index) before the link.
+                keeps = names[3] == rank_of.get(names[0]) or rr == frozenset('=')
+                validated = True
+                for v, rv in rank_of.items():
+                    vd = [d for d in walk(f.body) if d['k'] == 'VarDecl' and d.get('name') == rv][0]
+                    src = [a for a in call_args(strip(kids(vd)[0], casts=True))]
+                    blk = strip(src[0], casts=True) if src else None
+                    if blk is None or blk['k'] != 'DeclRefExpr' or not any(
+                            m['k'] == 'BinaryOperator' and m.get('op') in ('==', '!=') and
+                            any(is_call(strip(o, casts=True), 'b2p') and any(q.get('did') == blk.get('did') for q in walk(o) if q['k'] == 'DeclRefExpr') for o in kids(m)) and
+                            any(strip(o, casts=True).get('name') == v for o in kids(m))
+                            for m in walk(f.body)):
+                        validated = False
+                ok6 = keeps or validated
+                rep.ob('R6-compared-ranks-are-the-nodes-own', 'DisjointSet::unionNodes/link[%s]' % ''.join(sorted(rr)), ok6, f.loc(n),
+                       '' if ok6 else 'the node linked under the new root gets the NEW ROOT\'s rank (%s) as its rank field, and unionNodes compares b2r(get(.)) of indices that '
+                       'are not re-checked to be roots: a stale index shows an inflated rank, the (rank, index) order is broken and two concurrent unions '
+                       'can link x under y and y under x' % names[3])
             if ok:
                 straight = names[0] == pn[0]
                 rxx = rx if straight else frozenset(FLIP[r] for r in rx)
@@ -377,9 +399,10 @@ def rule_packing(rep, ds, u):
 MUTANTS = [
     ('union-link-direction-flipped', 'if (xrank > yrank || ((xrank == yrank) && x > y)) {', 'if (xrank > yrank || ((xrank == yrank) && x < y)) {', 'R3'),
     ('union-rank-only', 'if (xrank > yrank || ((xrank == yrank) && x > y)) {', 'if (xrank > yrank) {', 'R3'),
-    ('union-no-retry', '''            if (!updateRoot(x, xrank, y, yrank)) {
+    ('linked-node-gets-the-new-roots-rank', 'if (!updateRoot(x, xrank, y, xrank)) {', 'if (!updateRoot(x, xrank, y, yrank)) {', 'R6'),
+    ('union-no-retry', '''            if (!updateRoot(x, xrank, y, xrank)) {
                 continue;
-            }''', '''            updateRoot(x, xrank, y, yrank);''', 'R2'),
+            }''', '''            updateRoot(x, xrank, y, xrank);''', 'R2'),
     ('updateRoot-skips-root-check', 'if (nextN != x || rankN != oldrank) return false;', 'if (rankN != oldrank) return false;', 'R2'),
     ('find-plain-store', 'this->get(x).compare_exchange_strong(xState, newState);', 'this->get(x).store(newState);', 'R1'),
     ('find-drops-rank', 'block_t newState = pr2b(newParent, b2r(xState));', 'block_t newState = pr2b(newParent, 0);', 'R4'),
@@ -413,14 +436,15 @@ def run(tier='quick'):
     rep = Report('C29', tier)
     rep.explanation = ('static analysis of DisjointSet: inventory of every atomic access to a union-find cell (CAS-only mutation, expected value '
                        'loaded from the same cell), dominance rules in updateRoot / sameSet, an order abstraction of unionNodes that enumerates '
-                       'all orderings of (x,y) and (xrank,yrank) reaching the link (exhaustive: 9 orderings), path-halving term check, and '
+                       'all orderings of (x,y) and (xrank,yrank) reaching the link (exhaustive: 9 orderings; the rank stored in a linked node is its own, or '
+                       'compared ranks come from blocks validated to be roots), path-halving term check, and '
                        'constant-folded block packing.')
     rep.assumptions = ['linearizability over all interleavings is NOT decided (model checking, outside the family); these are the structural '
                        'necessary conditions of the CAS protocol']
     try:
         analyse(rep)
         ms = [mutate.Mutant(n, HDR, o, w, e) for (n, o, w, e) in MUTANTS]
-        mutate.run_mutants(rep, 'C29', ms if tier == 'thorough' else ms[:3], analyse)
+        mutate.run_mutants(rep, 'C29', ms if tier == 'thorough' else ms[:4], analyse)
     except facts.Broken as e:
         rep.analysis_broken(str(e))
     rep.exhaustive = True
